@@ -88,6 +88,19 @@ func (e *Env) lookup(name string) (Val, bool) {
 				return v, true
 			}
 		}
+		// a local that is in scope but whose declaration has not executed on
+		// this path yet has its zero value
+		if e.fr.fn.Pkg != nil && e.pos.IsValid() {
+			if sc := e.fr.fn.Pkg.Pkg.Scope().Innermost(e.pos); sc != nil {
+				if _, obj := sc.LookupParent(name, e.pos); obj != nil {
+					if _, isVar := obj.(*types.Var); isVar && obj.Parent() != e.fr.fn.Pkg.Pkg.Scope() {
+						if a := allocFor(e.fr.fn, obj); a != nil && e.fr.cells[a] == nil {
+							return zeroVal(obj.Type()), true
+						}
+					}
+				}
+			}
+		}
 	}
 	if e.pkg != nil {
 		if obj := e.pkg.Scope().Lookup(name); obj != nil {
@@ -632,6 +645,14 @@ func (e *Env) evalCall(n *ast.CallExpr) Val {
 			evalFail("as: unknown type %q", name)
 		}
 		return e.x.unbox(iv, t)
+	case "has":
+		// has(m, k): key k is present in map m
+		v := e.eval(n.Args[0])
+		m, ok := v.(MapV)
+		if !ok {
+			evalFail("has of %T", v)
+		}
+		return Bool{e.x.mapHas(e.st, m, e.eval(n.Args[1]))}
 	case "isnil":
 		v := e.eval(n.Args[0])
 		c, ok := valEqual(v, nilOf(v))
